@@ -11,11 +11,15 @@
      v1   WithV1Compatibility         TRUE | FALSE
      emb  WithPublicKey               default | yes | no
      val  value path class            ipfsV1 | ipfsV0sub | ipns
+     sz   size of the encoded record  small (natural size, far below the limit) | max-1 | max | max+1 | max+1k
+                                      relative to the documented limit MaxRecordSize = 10 KiB
+     pad  what is padded to reach sz  none | mdString | mdBytes (one metadata entry "_pad") | value (a long path
+                                      segment, plus a "_pad" string of < 24 bytes for the last few bytes)
    The pipeline NewRecord -> MarshalRecord -> UnmarshalRecord -> validation -> accessors is modelled
    stage by stage with the representation changes the code performs (uint64 <-> int64 casts for the
    DAG-CBOR integers, the TTL floor, the embed-key default), and the property is stated as
    invariants of the final stage.  Expected(c) is what the harness compares the real code with.     *)
-EXTENDS Naturals, Sequences, FiniteSets, TLC, Json
+EXTENDS Integers, Sequences, FiniteSets, TLC, Json
 
 CONSTANT Full      \* TRUE: full product of the scalar classes; FALSE: a covering diagonal (quick tier)
 
@@ -26,6 +30,22 @@ EolC == {"soon", "hourNanos", "zoned", "y9999"}
 TtlC == {"0", "1ns", "1h", "max"}
 ValC == {"ipfsV1", "ipfsV0sub", "ipns"}
 EmbC == {"default", "yes", "no"}
+
+(* ------------------------------------------------ record size limit
+   https://specs.ipfs.tech/ipns/ipns-record/#record-size-limit : a serialized record of at most 10 KiB MUST be
+   supported, larger ones are refused (ErrRecordSize).  The limit is INCLUSIVE and is the same number at every
+   entry point that looks at the size: Validate (size of the message held in memory), UnmarshalRecord and
+   Validator.Validate (length of the bytes received).  NewRecord and MarshalRecord do not look at the size.   *)
+MaxRecordSize == 10240
+WithinLimit(n) == n <= MaxRecordSize
+SzBoundary == {"max-1", "max", "max+1", "max+1k"}
+SzC  == {"small"} \cup SzBoundary
+PadC == {"none", "mdString", "mdBytes", "value"}
+NaturalLen == 1024       \* representative of "whatever the unpadded inputs give" (the harness checks < MaxRecordSize - 1)
+WireLen(sz) == CASE sz = "small" -> NaturalLen [] sz = "max-1" -> MaxRecordSize - 1 [] sz = "max" -> MaxRecordSize
+                 [] sz = "max+1" -> MaxRecordSize + 1 [] sz = "max+1k" -> MaxRecordSize + 1024
+\* the metadata entry the padding adds (kind as reported by the accessor)
+PadEntry(pad) == CASE pad = "none" -> {} [] pad = "mdBytes" -> {<<"_pad", "bytes">>} [] OTHER -> {<<"_pad", "string">>}
 
 \* metadata classes: entries as <<key, kind>> (kind of the DAG-CBOR scalar the accessor must report)
 \* or the set of errors NewRecord may return (map iteration order is unspecified)
@@ -54,8 +74,15 @@ Diagonal == {<<"0", "soon", "0">>, <<"0", "y9999", "max">>, <<"1", "hourNanos", 
 Scalars == IF Full THEN SeqC \X EolC \X TtlC ELSE Diagonal
 \* full product for acceptable metadata; the reject rules do not depend on the other inputs, so the
 \* rejected classes are crossed with key type and v1 only
-CaseSpace == [kt : KeyTypes, sc : Scalars, md : DOMAIN MdOK, v1 : BOOLEAN, emb : EmbC, val : ValC]
-             \cup [kt : KeyTypes, sc : {<<"1", "hourNanos", "1h">>}, md : DOMAIN MdBad, v1 : BOOLEAN, emb : {"default"}, val : {"ipfsV1"}]
+\* size boundary family: the size rule does not depend on the scalar values (they only move the natural size, and the
+\* padding compensates), so the boundary sizes are crossed with everything that changes the LAYOUT of the message
+\* (key type = signature/key sizes, legacy mirrors, embedded key, other metadata, where the padding sits) and two triples
+CaseSpace == [kt : KeyTypes, sc : Scalars, md : DOMAIN MdOK, v1 : BOOLEAN, emb : EmbC, val : ValC, sz : {"small"}, pad : {"none"}]
+             \cup [kt : KeyTypes, sc : {<<"1", "hourNanos", "1h">>}, md : DOMAIN MdBad, v1 : BOOLEAN, emb : {"default"}, val : {"ipfsV1"},
+                   sz : {"small"}, pad : {"none"}]
+             \cup [kt : KeyTypes, sc : {<<"1", "hourNanos", "1h">>, <<"2^64-1", "y9999", "max">>}, md : {"none", "all"}, v1 : BOOLEAN,
+                   emb : EmbC, val : {"ipfsV1"}, sz : SzBoundary, pad : PadC \ {"none"}]
+MdEntries(x) == MdOK[x.md] \cup PadEntry(x.pad)
 
 (* ------------------------------------------------ representation changes made by the code *)
 \* createNode: basicnode.NewInt(int64(seq)) -- the uint64 is reinterpreted as int64 (two's complement)
@@ -66,7 +93,7 @@ U64OfI64(i) == CASE i = "min" -> "2^63" [] i = "-1" -> "2^64-1" [] OTHER -> i
 CborMajor(i) == IF i \in {"min", "-1"} THEN 1 ELSE 0
 
 VARIABLES c,      \* the case (inputs)
-          stage,  \* "input" -> "created" | "rejected" -> "wire" -> "parsed" -> "validated"
+          stage,  \* "input" -> "created" | "rejected" -> "memchecked" -> "wire" -> "parsed" | "refused" -> "validated"
           rec     \* the record as the code holds it at this stage
 vars == <<c, stage, rec>>
 
@@ -79,19 +106,26 @@ EmbedKey(x) == IF x.emb = "default" THEN ~Inlined(x.kt) ELSE x.emb = "yes"   \* 
 CreateReject == /\ stage = "input" /\ c.md \in DOMAIN MdBad
                 /\ stage' = "rejected" /\ UNCHANGED <<c, rec>>
 CreateOK == /\ stage = "input" /\ c.md \in DOMAIN MdOK
-            /\ rec' = [data   |-> [seq |-> I64OfU64[c.sc[1]], eol |-> c.sc[2], ttl |-> c.sc[3], val |-> c.val, md |-> MdOK[c.md]],
+            /\ rec' = [data   |-> [seq |-> I64OfU64[c.sc[1]], eol |-> c.sc[2], ttl |-> c.sc[3], val |-> c.val, md |-> MdEntries(c)],
+                       len    |-> WireLen(c.sz),                          \* proto.Size of the message = length of its encoding
+                       memv   |-> "none",                                 \* verdict of Validate on the record as created
                        sig2   |-> <<c.kt, "data">>,                       \* signature over exactly this document
                        legacy |-> IF c.v1 THEN [seq |-> c.sc[1], eol |-> c.sc[2], ttl |-> c.sc[3], val |-> c.val] ELSE NoRec,
                        pk     |-> IF EmbedKey(c) THEN c.kt ELSE "none"]
             /\ stage' = "created" /\ UNCHANGED c
-Marshal   == stage = "created" /\ stage' = "wire" /\ UNCHANGED <<c, rec>>      \* proto.Marshal: every set field is written
-Unmarshal == stage = "wire" /\ stage' = "parsed" /\ UNCHANGED <<c, rec>>       \* proto.Unmarshal + dagcbor.Decode: identity
+\* verification step 1 on the record the creator holds in memory (before it ever touches the wire)
+SizeVerdict(n) == IF WithinLimit(n) THEN "ok" ELSE "ErrRecordSize"
+ValidateCreated == stage = "created" /\ rec' = [rec EXCEPT !.memv = SizeVerdict(rec.len)] /\ stage' = "memchecked" /\ UNCHANGED c
+Marshal   == stage = "memchecked" /\ stage' = "wire" /\ UNCHANGED <<c, rec>>   \* proto.Marshal: every set field is written, any size
+\* UnmarshalRecord: size guard on the received bytes, then proto.Unmarshal + dagcbor.Decode: identity
+Unmarshal == stage = "wire" /\ WithinLimit(rec.len) /\ stage' = "parsed" /\ UNCHANGED <<c, rec>>
+UnmarshalRefuse == stage = "wire" /\ ~WithinLimit(rec.len) /\ stage' = "refused" /\ UNCHANGED <<c, rec>>     \* ErrRecordSize
 \* step 5 of the verification on a library-made record: legacy fields against the decoded document
 LegacyMatches(x) == IF x.legacy = NoRec THEN TRUE
                     ELSE /\ x.legacy.seq = U64OfI64(x.data.seq)      \* entry.GetSequence() != uint64(ndInt)
                          /\ x.legacy.eol = x.data.eol /\ x.legacy.ttl = x.data.ttl /\ x.legacy.val = x.data.val
-Validate  == stage = "parsed" /\ LegacyMatches(rec) /\ stage' = "validated" /\ UNCHANGED <<c, rec>>
-Next == CreateReject \/ CreateOK \/ Marshal \/ Unmarshal \/ Validate
+Validate  == stage = "parsed" /\ WithinLimit(rec.len) /\ LegacyMatches(rec) /\ stage' = "validated" /\ UNCHANGED <<c, rec>>
+Next == CreateReject \/ CreateOK \/ ValidateCreated \/ Marshal \/ Unmarshal \/ UnmarshalRefuse \/ Validate
 Spec == Init /\ [][Next]_vars
 
 (* ------------------------------------------------ what the caller must observe *)
@@ -99,28 +133,43 @@ KeyKnown(x, api) == EmbedKey(x) \/ Inlined(x.kt) \/ api = "book"
 Expected(x) ==
   IF x.md \in DOMAIN MdBad
   THEN [create |-> "reject", errors |-> MdBad[x.md]]
-  ELSE [create |-> "ok",
+  ELSE LET within == WithinLimit(WireLen(x.sz)) IN
+       [create |-> "ok",                     \* NewRecord does not limit the size
+        target |-> IF x.sz = "small" THEN 0 ELSE WireLen(x.sz),   \* exact length of the encoding (0: natural, unpadded)
+        within |-> within,                   \* FALSE: Validate, UnmarshalRecord and Validator.Validate all answer ErrRecordSize
+        unmarshal |-> SizeVerdict(WireLen(x.sz)),
         hasPk  |-> EmbedKey(x),              \* Record.PubKey(): embedded key equal to the signer's, else ErrPublicKeyNotFound
         legacy |-> x.v1,                     \* the six legacy protobuf fields are present iff v1-compatible
-        vKey   |-> TRUE,                     \* Validate(rec, public key)
-        vName  |-> KeyKnown(x, "name"),      \* ValidateWithName(rec, name)
-        vBook  |-> TRUE,                     \* Validator{KeyBook with the key}.Validate(routing key, bytes)
+        vKey   |-> within,                   \* Validate(rec, public key)
+        vName  |-> KeyKnown(x, "name") /\ within,      \* ValidateWithName(rec, name)
+        vBook  |-> within,                   \* Validator{KeyBook with the key}.Validate(routing key, bytes)
         seq |-> x.sc[1], eol |-> x.sc[2], ttl |-> x.sc[3], val |-> x.val,    \* accessors return the inputs
         cborSeqMajor |-> CborMajor(I64OfU64[x.sc[1]]),
-        md  |-> MdOK[x.md]]
+        md  |-> MdEntries(x)]
 
 (* ------------------------------------------------ invariants *)
-TypeOK == c \in CaseSpace /\ stage \in {"input", "created", "rejected", "wire", "parsed", "validated"}
+TypeOK == c \in CaseSpace /\ stage \in {"input", "created", "rejected", "memchecked", "wire", "parsed", "refused", "validated"}
 \* invalid metadata never produces a record; valid input always reaches "validated" (checked with RoundTripCompletes)
 RejectIffBadMetadata == (stage = "rejected") => c.md \in DOMAIN MdBad
 \* accessors after the round trip return the inputs
 AccessorsIdentity == stage \in {"parsed", "validated"} =>
                        /\ U64OfI64(rec.data.seq) = c.sc[1] /\ rec.data.eol = c.sc[2] /\ rec.data.ttl = c.sc[3]
-                       /\ rec.data.val = c.val /\ rec.data.md = MdOK[c.md]
+                       /\ rec.data.val = c.val /\ rec.data.md = MdEntries(c)
 \* the int64 reinterpretation loses nothing: distinct sequence classes stay distinct
 CastInjective == \A a, b \in SeqC : I64OfU64[a] = I64OfU64[b] => a = b
 \* every parsed library record passes step 5
 ParsedValidates == stage = "parsed" => LegacyMatches(rec)
 \* liveness as a reachability invariant of the end states: the pipeline never stops early
-NoEarlyStop == stage \in {"created", "wire", "parsed"} => ENABLED Next
+NoEarlyStop == stage \in {"created", "memchecked", "wire", "parsed"} => ENABLED Next
+\* the size limit is one inclusive number for every entry point:
+\*  a record that validates in memory survives marshal/unmarshal and validates again (in particular at exactly MaxRecordSize),
+\*  a record refused on the wire was already refused in memory, and only records over the limit are ever refused
+SizeConsistent == /\ stage = "refused" => rec.memv = "ErrRecordSize" /\ rec.len > MaxRecordSize
+                  /\ stage \in {"parsed", "validated"} => rec.memv = "ok" /\ rec.len <= MaxRecordSize
+                  /\ stage \in {"memchecked", "wire"} => (rec.memv = "ok" <=> rec.len <= MaxRecordSize)
+AtLimitSurvives == c.sz \in {"small", "max-1", "max"} => stage # "refused"
+OverLimitRefused == c.sz \in {"max+1", "max+1k"} => stage \notin {"parsed", "validated"}
+\* Expected agrees with the pipeline: the end stage of an accepted case is "validated" iff Expected says within
+EndStageMatchesExpected == /\ stage = "validated" => Expected(c).within /\ Expected(c).vKey /\ Expected(c).unmarshal = "ok"
+                           /\ stage = "refused" => ~Expected(c).within /\ ~Expected(c).vBook /\ Expected(c).unmarshal = "ErrRecordSize"
 =============================================================================
